@@ -320,7 +320,7 @@ class TypeRender:
     # ------------------------------------------------------------ field-level attributes
     def default_value_text(self, v, i, f):
         kind = f['dflt']
-        return {'int': '%d' % (10 + i), 'str': '"%d"' % (10 + i), 'bool': 'true', 'char': "'%d'" % i,
+        return {'int': '%d' % (10 + i), 'int8': '%du8' % (10 + i), 'str': '"%d"' % (10 + i), 'bool': 'true', 'char': "'%d'" % i,
                 'float': '%d.0' % (10 + i), 'expr': 'probes::pexpr(%d)' % (10 + i)}[kind]
 
     def method_path(self, t):
